@@ -108,6 +108,7 @@ func TestC16(t *testing.T) {
 		t.Fatal("no corpus")
 	}
 	t.Run("bounds", rapid.MakeCheck(func(rt *rapid.T) {
+		noiseCall(rt) // one case in three is preceded by an unrelated, mostly failing call (see noise_test.go)
 		in := c16DrawDoc(rt, corp)
 		if len(in.DSL) > 0 && in.Origin == "crafted" && !utf8.ValidString(in.DSL) {
 			in.DSL = strings.ToValidUTF8(in.DSL, "?")
